@@ -22,7 +22,9 @@ META = {
             "is_manifold_implies_inv / is_manifold_gate_sound (IsManifold accepted => HalfedgeInv, for every array, so for every CreateHalfedges output), export_closed "
             "(HalfedgeInv + no tombstone + no duplicate directed edge + vertices in range and referenced => the emitted triangles are Closed2Manifold and check_mesh accepts them), "
             "reindex_verts_preserves_inv (for every vertNew2Old), stable_sort_contract (the sort model is a stable sort), exec_remove_unreferenced_derived and "
-            "sort_geometry_no_tombstone_partial (table rows derived from the ported functions). PROVED for a stated bound only: "
+            "sort_geometry_no_tombstone_partial (table rows derived from the ported functions), compaction_exports_closed (round 3: from HalfedgeInv + NaN-iff-unreferenced + "
+            "no live directed edge twice, for every pair of Morton orders meeting their contracts, SortVerts then SortFaces then GetMeshGLImpl's index emission give a "
+            "Closed2Manifold that check_mesh accepts - whenever the two ported calls are defined). PROVED for a stated bound only: "
             "is_manifold_gate_partial (ported CreateHalfedges + IsManifold: accepted iff directed edges balance, HalfedgeInv and opposed-pair removal facts, "
             "exhaustively for all lists of <= 3 triangles over 4 vertices, a 14 400-list family of 4 triangles, and all pairs over 5 vertices). "
             "CHECKED, not proved: the pass tables are read from src/*.cpp by translate/c01_pipeline.py and judged by the extracted pipeline_ok (a rejected pipeline is a "
@@ -34,7 +36,9 @@ META = {
             "exported with GetMeshGL64, merged, and judged by the extracted checker; error Status must come with an empty Manifold; positions/properties must be finite.",
     "note": "Not reached (DESIGN.md C01 plan): the completeness half of the unbounded is_manifold_gate (balanced => accepted; live triangles = input minus opposed pairs), "
             "invariant-preservation THEOREMS for PairUp/CollapseTri/FlipTris/GatherFaces/RemoveIfFolded/SwapEdge/CollapseEdge (only checked by correspondence + extracted invariants), "
-            "cleanup_even_to_2manifold, the compaction half of compaction_exports_closed (SortVerts/SortFaces keep the invariant and make every vertex referenced); the PAR range partition of CreateHalfedges and the >= 2^18-vertex bucket branch are not modelled "
+            "cleanup_even_to_2manifold (CleanupTopology is only judged: real Impl on hand-built even-manifold states with fans on both sides of the 32-neighbour switch, extracted "
+            "invariants + check_mesh), definedness of SortVerts/SortFaces under compaction_exports_closed's hypotheses, HalfedgeInv of the compacted state (only the export is proved), "
+            "merge vectors / property vertices of GetMeshGLImpl, mode-independence theorem for DedupeEdges' duplicate detection; the PAR range partition of CreateHalfedges and the >= 2^18-vertex bucket branch are not modelled "
             "(exercised only end-to-end in the thorough tier with real TBB). The per-pass effect relations are hand-written from reading the code (trusted) except the "
             "RemoveUnreferencedVerts row; generators of ShapeCtor/Sphere/Extrude/Hull are assumed to strand nothing (listed assumptions). So for the property's own "
             "quantifier (all programs) the guarantee is: theorem for the oracle and the abstract pass analysis, testing for everything else.",
@@ -737,7 +741,8 @@ def translate_pipelines(cx):
     T.emit_coq(pipes, gen)
     for d in pipes:
         if d["waiver"]:
-            cx.assumptions.append("pipeline %s: generator assumed to create no unreferenced vertex / no opposed triangle pair (%s) - not proved, oracle on outputs only" % (d["name"], d["waiver"]))
+            cx.assumptions.append("pipeline %s: generator assumption(s) %s (%s) - not proved, oracle on outputs only" % (
+                d["name"], "+".join({"stranded": "no unreferenced vertex / no opposed triangle pair", "dup": "no duplicate directed edge / pinched vertex"}[k] for k in d["waiver"][1]), d["waiver"][0]))
     return pipes
 
 
